@@ -10,7 +10,7 @@ rejected; a memo machine with Access actions and the invariants OrderIndependent
 MemoClosed, model-checked by TLC (MC_C16) over every hierarchy of a catalogue and every order.
 
 spec -> code: TLC (MC_C16) builds every hierarchy of <= 3 (4) classes from catalogues of own
-              Media contents / extend forms / asset kinds / component-relative files and exports
+              Media contents / extend forms / asset kinds / relative files / plain mixins and exports
               each one with what MediaInherit expects; the harness builds the classes with type()
               in a fresh module per run (the library's memo table is process-global, so every run
               starts cold), drives permutations of the first accesses (classes and instances;
@@ -34,7 +34,8 @@ Not determined by the property, therefore not asserted: the relative order of fi
 declared list relates, the order when the declared lists are cyclic (Django warns; compared
 as sets), which classes end up memoised.  Hierarchies Python itself rejects (no C3 order) are
 only used to cross-check the MRO transcription (a disagreement there is a machinery error).
-SafeString entries, custom media_class and non-Component mixin bases are not generated.
+SafeString entries and custom media_class are not generated; plain (non-Component) mixins carry
+only a nested Media in canonical form, no assets and no component-relative files.
 """
 from __future__ import annotations
 
@@ -580,7 +581,7 @@ def model_check_machine(quick: bool) -> Dict[str, Any]:
                          extra=inv),
         # three classes (multiple inheritance, extend lists), media only
         "machine3": dict(maxn=3, maxacc=2, lists="ListsTiny" if quick else "ListsQuick", accattrs="AccMedia",
-                         accvias="ViasCls", trim=quick, extra=inv + "INVARIANT FlattenOnlyOnShape\n"),
+                         accvias="ViasCls", trim=True, extra=inv + "INVARIANT FlattenOnlyOnShape\n"),
         # relative files, media and js in every order: the repaired model conforms
         "machine_rel": dict(maxn=2, maxacc=2 if quick else 3, lists="ListsRel", rel="Rel1", attrs="AttrsFew",
                             exts="ExtsTF", accattrs="AccMediaJs", accvias="ViasCls", extra=inv),
@@ -725,8 +726,9 @@ def run(tier: str) -> int:
         "and instances; the rotation makes every order occur on every shape): family media = 3 classes, <= 2 bases, "
         "own Media none / (None) / 4-5 contents x extend True / False / every list of <= 2 earlier classes, "
         "exhaustive; attr = 3 classes x 7 asset-kind triples incl. both members, exhaustive; attr4 / media4 = 4 "
-        "classes (diamonds); rel = component-relative files with media read before / after / between template, js, "
-        "css (families in sampled_families: seeded sample of that many hierarchies).  A hierarchy that can still be "
+        "classes (diamonds); mixin = plain non-Component classes with a nested Media as bases / in extend lists; "
+        "rel = component-relative files with media read before / after / between template, js, css (families in "
+        "sampled_families: seeded sample of that many hierarchies).  A hierarchy that can still be "
         "extended is replayed as prefix of its extensions.  code -> spec: seeded random hierarchies of 3-6 classes, "
         "<= 3 bases, lists of <= 3 files from 4, relative files, all surface forms, 4-14 random accesses, validated "
         "by Trace_C16; every run contradicting the exported expectation is also judged by Trace_C16.  Non-trivial = "
@@ -738,7 +740,8 @@ def run(tier: str) -> int:
         "a component-relative path denotes the converted path (docs: 'the component's file path is re-written')",
         "a class without own Media has the default extend=True (DESIGN C16; docs: Media holds only the class's own definition)",
         "Python's own rejection of hierarchies without C3 order is used only to cross-check the MRO transcription",
-        "SafeString entries, media_class subclasses and non-Component mixin bases are not generated",
+        "SafeString entries and media_class subclasses are not generated; plain mixins carry only a Media in "
+        "canonical form (nobody normalises it), never assets or component-relative files",
         "layer B (MediaInheritImpl) is used only to classify an observation the specification already rejected",
     ]
     return chk.finish()
